@@ -1,4 +1,4 @@
-import DaliVerif.Proofs.Construct
+import DaliVerif.Proofs.ConstructLegal
 import DaliVerif.Model.Construct
 import DaliVerif.Gen.Commands
 import DaliVerif.Props.C05
@@ -185,148 +185,52 @@ end DaliVerif.Props.C02
 namespace DaliVerif.Props.C02
 open DaliVerif Cmd Spec
 
-/-- argument objects are validly constructed address / instance objects -/
-def ArgOK : Arg → Prop
-  | .addr a => a.Valid
-  | .inst i => i.Valid
-  | .val _ => True
-
-theorem checkDestination_valid (d : Arg) (hd : ArgOK d) (a : Addr)
-    (h : checkDestination d = .ok (.inl a)) : a.Valid := by
-  cases d with
-  | addr a' => simp only [checkDestination] at h; injection h with h; injection h with h; subst h; exact hd
-  | inst i => simp [checkDestination] at h
-  | val v =>
-    simp only [checkDestination] at h
-    cases hv : v.asInt? with
-    | none => simp [hv] at h
-    | some i =>
-      simp only [hv, Addr.mkGearShort, Addr.mkNumbered] at h
-      split at h
-      · simp [Except.map] at h
-      · rename_i hr
-        simp only [Except.map] at h
-        injection h with h; injection h with h; subst h
-        simp only [Addr.Valid]
-        simp only [Bool.or_eq_true, decide_eq_true_eq, not_or] at hr
-        omega
-
-theorem encode_ok_gear (a : Addr) (d : Nat) (f : Frame) (h : a.addToFrame ⟨16, d⟩ = .ok f) :
-    a.isGear = true := by
-  unfold Addr.addToFrame at h
-  split at h
-  · contradiction
-  · rename_i hs
-    simp only [Addr.frameSize, bne_iff_ne, ne_eq, Decidable.not_not] at hs
-    cases hg : a.isGear
-    · simp [hg] at hs
-    · rfl
-
-theorem intParam_le (v : Arg) (limit p : Nat) (h : intParam v limit = .ok p) : p ≤ limit := by
-  unfold intParam at h
-  cases v with
-  | val v =>
-    simp only at h
-    cases hv : v.asInt? with
-    | none => simp [hv] at h
-    | some i =>
-      simp only [hv] at h
-      split at h
-      · contradiction
-      · rename_i hr
-        injection h with h
-        simp only [Bool.or_eq_true, decide_eq_true_eq, not_or] at hr
-        omega
-  | addr _ => simp at h
-  | inst _ => simp at h
-
-/-- **Whatever the standard-command constructor accepts is legal** — if
-`_StandardCommand.__init__` returns and the frame assembly succeeds, the object
-is in the legal set `WF` (4-bit parameter in range or absent, destination a
-valid *gear* address): nothing outside the legal ranges is ever accepted or
-truncated into another command's frame. -/
+/-- **Whatever a constructor accepts is legal** — if the constructor returns and
+the frame assembly succeeds, the object is in the legal set `WF` (parameters in
+range, destination a valid address of the command's own kind, …): nothing
+outside the legal ranges is ever accepted or truncated into another command's
+frame.  One theorem per constructor family; `hreg` says the class is registered
+(re-checked for the current tree by C03's `rows_registered`). -/
 theorem std_accepted_is_legal (T : Tables) (c : StdClass)
     (hreg : ∀ p, (if c.hasparam then p ≤ 15 else p = 0) → ((c.dt, c.cmdval + p), c) ∈ T.stdOpcodes)
     (args : List Arg) (hargs : ∀ a ∈ args, ArgOK a) (cmd : Cmd) (f : Frame)
-    (h : constructStd c args = .ok cmd) (he : encode cmd = .ok f) : WF T cmd := by
-  -- reduce to: parameter p in range, destination checked
-  have key : ∃ p a, (if c.hasparam then p ≤ 15 else p = 0) ∧ cmd = .standard c a p ∧
-      ∃ dest ∈ args, checkDestination dest = .ok (.inl a) := by
-    cases args with
-    | nil => simp [constructStd] at h
-    | cons dest rest =>
-      simp only [constructStd, bind, Except.bind] at h
-      cases hh : c.hasparam with
-      | true =>
-        simp only [hh, if_true] at h ⊢
-        match rest, h with
-        | [q], h =>
-          cases hq : intParam q 15 with
-          | error e => simp [hq] at h
-          | ok p =>
-            simp only [hq] at h
-            cases hd : checkDestination dest with
-            | error e => simp [hd] at h
-            | ok r =>
-              cases r with
-              | inr i => simp [hd] at h
-              | inl a =>
-                simp only [hd, pure, Except.pure] at h
-                injection h with h
-                exact ⟨p, a, intParam_le q 15 p hq, h.symm, dest, by simp, hd⟩
-      | false =>
-        simp only [hh, Bool.false_eq_true, if_false] at h ⊢
-        match rest, h with
-        | [], h =>
-          simp only [pure, Except.pure] at h
-          cases hd : checkDestination dest with
-          | error e => simp [hd] at h
-          | ok r =>
-            cases r with
-            | inr i => simp [hd] at h
-            | inl a =>
-              simp only [hd] at h
-              injection h with h
-              exact ⟨0, a, rfl, h.symm, dest, by simp, hd⟩
-  obtain ⟨p, a, hpr, hcmd, dest, hdm, hd⟩ := key
-  subst hcmd
-  have hv := checkDestination_valid dest (hargs dest hdm) a hd
-  -- the frame assembly succeeded, so the address is a gear address
-  have hnewbits : ∀ x fr, newFrame 16 x = .ok fr → fr.bits = 16 := by
-    intro x fr hn
-    unfold newFrame natVal Frame.new at hn
-    simp only [PyVal.asInt?] at hn
-    split at hn
-    · contradiction
-    · split at hn
-      · contradiction
-      · split at hn
-        · contradiction
-        · injection hn with hn; rw [← hn]; rfl
-  have bind_ok : ∀ {α β : Type} (x : PyRes α) (g : α → PyRes β) (r : β),
-      (x >>= g) = .ok r → ∃ y, x = .ok y ∧ g y = .ok r := by
-    intro α β x g r hx
-    cases x with
-    | error e => simp [bind, Except.bind] at hx
-    | ok y => exact ⟨y, rfl, hx⟩
-  have hg : a.isGear = true := by
-    have fin : ∀ x, (newFrame 16 x >>= a.addToFrame) = Except.ok f → a.isGear = true := by
-      intro x hx
-      obtain ⟨fr, hn, hadd⟩ := bind_ok _ _ _ hx
-      have hb := hnewbits x fr hn
-      cases fr with
-      | mk b d => simp only at hb; subst hb; exact encode_ok_gear a d f hadd
-    cases hh : c.hasparam with
-    | true =>
-      simp only [encode, hh, if_true] at he
-      obtain ⟨_, _, he'⟩ := bind_ok _ _ _ he
-      exact fin _ he'
-    | false =>
-      simp only [encode, hh, Bool.false_eq_true, if_false] at he
-      obtain ⟨_, _, he'⟩ := bind_ok _ _ _ he
-      first
-        | exact fin _ he'
-        | exact fin _ he
-  exact ⟨hreg p hpr, hv, hg, hpr⟩
+    (h : constructStd c args = .ok cmd) (he : encode cmd = .ok f) : WF T cmd :=
+  Cmd.std_accepted_is_legal T c hreg args hargs cmd f h he
+
+theorem dapc_accepted_is_legal (T : Tables) (args : List Arg) (hargs : ∀ a ∈ args, ArgOK a)
+    (cmd : Cmd) (f : Frame) (h : constructDapc args = .ok cmd) (he : encode cmd = .ok f) : WF T cmd :=
+  Cmd.dapc_accepted_is_legal T args hargs cmd f h he
+
+theorem special_accepted_is_legal (T : Tables) (c : SpecialClass)
+    (hreg : (c.cmdval, c) ∈ T.specialOpcodes) (hk : c.kind = .plain) (args : List Arg) (cmd : Cmd)
+    (h : constructSpecial c args = .ok cmd) : WF T cmd :=
+  Cmd.special_accepted_is_legal T c hreg hk args cmd h
+
+theorem shortSpecial_accepted_is_legal (T : Tables) (c : SpecialClass)
+    (hreg : (c.cmdval, c) ∈ T.specialOpcodes) (hk : c.kind = .shortAddr) (args : List Arg) (cmd : Cmd)
+    (h : constructShortSpecial c args = .ok cmd) : WF T cmd :=
+  Cmd.shortSpecial_accepted_is_legal T c hreg hk args cmd h
+
+theorem initialise_accepted_is_legal (T : Tables) (c : SpecialClass)
+    (hreg : (c.cmdval, c) ∈ T.specialOpcodes) (hk : c.kind = .initialise) (b a : PyVal) (cmd : Cmd)
+    (h : constructInitialise c b a = .ok cmd) : WF T cmd :=
+  Cmd.initialise_accepted_is_legal T c hreg hk b a cmd h
+
+theorem devStd_accepted_is_legal (T : Tables) (c : DevClass) (hreg : (c.opcode, c) ∈ T.devOpcodes)
+    (args : List Arg) (hargs : ∀ a ∈ args, ArgOK a) (cmd : Cmd) (f : Frame)
+    (h : constructDevStd c args = .ok cmd) (he : encode cmd = .ok f) : WF T cmd :=
+  Cmd.devStd_accepted_is_legal T c hreg args hargs cmd f h he
+
+/-- instance commands: legal apart from the excluded instance byte 0xFE (`Device`)
+and hand-made reserved bytes -/
+theorem devInst_accepted_is_legal (T : Tables) (c : DevClass) (hreg : (c.opcode, c) ∈ T.instOpcodes)
+    (dest : Arg) (i : Inst) (hd : ArgOK dest) (hi : i.Canonical) (hnd : i ≠ .device) (cmd : Cmd) (f : Frame)
+    (h : constructDevInst c [dest, .inst i] = .ok cmd) (he : encode cmd = .ok f) : WF T cmd :=
+  Cmd.devInst_accepted_is_legal T c hreg dest i hd hi hnd cmd f h he
+
+theorem devSpecial_accepted_is_legal (T : Tables) (c : DevSpecialClass)
+    (hreg : DevEntry.special c ∈ T.devCommands) (args : List Arg) (cmd : Cmd)
+    (h : constructDevSpecial c args = .ok cmd) : WF T cmd :=
+  Cmd.devSpecial_accepted_is_legal T c hreg args cmd h
 
 end DaliVerif.Props.C02
